@@ -14,6 +14,8 @@ import (
 	"log"
 	"math/rand"
 	"net"
+	"os"
+	"os/exec"
 	"reflect"
 	"runtime"
 	"sort"
@@ -1045,6 +1047,44 @@ func sessionUserPayload(rep *Report, viol func(string, map[string]interface{})) 
 	}
 }
 
+// a session-authentication callback that PANICS has failed: no operation handler may run on that connection (today the panic
+// takes the process down - which is why this runs in a child process; whatever else happens, the handler must not run)
+func init() { suites["sessauthpanic-child"] = sessAuthPanicChild }
+
+func sessAuthPanicChild(args []string) {
+	s := &kmip.Server{Log: log.New(io.Discard, "", 0)}
+	s.SessionAuthHandler = func(conn net.Conn) (interface{}, error) { panic("session auth: no peer certificate to look at") }
+	s.Handle(kmip.OPERATION_DISCOVER_VERSIONS, func(ctx *kmip.RequestContext, item *kmip.RequestBatchItem) (interface{}, error) {
+		fmt.Println("HANDLER-RAN session=" + ctx.SessionID)
+		os.Stdout.Sync()
+		return kmip.DiscoverVersionsResponse{}, nil
+	})
+	lis := newMemListener()
+	init := make(chan struct{})
+	go s.Serve(lis, init)
+	<-init
+	mc := newMemConn("panic-auth")
+	lis.ch <- acceptResult{conn: mc}
+	mc.peerSend(dvRequest())
+	mc.waitUntil(2*time.Second, func() bool { return len(splitMessages(mc.out)) >= 1 || mc.localClosed })
+	mc.mu.Lock()
+	n := len(splitMessages(mc.out))
+	mc.mu.Unlock()
+	fmt.Printf("CHILD-DONE responses=%d\n", n)
+}
+
+func sessionAuthPanic(rep *Report, viol func(string, map[string]interface{})) {
+	cmd := exec.Command(os.Args[0], "sessauthpanic-child")
+	out, _ := cmd.CombinedOutput()
+	rep.Evaluations++
+	rep.Distribution["session-auth-panic"]++
+	text := string(out)
+	if strings.Contains(text, "HANDLER-RAN") || strings.Contains(text, "responses=1") {
+		viol("auth-gate", map[string]interface{}{"what": "the session-authentication callback panicked (it failed), yet an operation handler ran / a response was sent on that connection",
+			"child_output": firstN(text, 1500)})
+	}
+}
+
 func suiteSession(args []string) {
 	fs := flag.NewFlagSet("session", flag.ExitOnError)
 	seed := fs.Int64("seed", 1, "")
@@ -1055,9 +1095,11 @@ func suiteSession(args []string) {
 	cw := newCaseWriter(*dir)
 	rep := &Report{Suite: "session", Seed: *seed, Distribution: map[string]int{}}
 	rep.Rule = "a case is one connection: configuration, script of handler behaviours, input bytes; distinct = distinct case text; non-trivial = at least one request decoded (trace contains a call or a wrote event)"
+	perKind := map[string]int{}
 	viol := func(kind string, m map[string]interface{}) {
 		m["kind"] = kind
-		if len(rep.Violations) < 40 {
+		perKind[kind]++
+		if perKind[kind] <= 8 { // a few of every kind: one kind must not crowd out the others
 			rep.Violations = append(rep.Violations, m)
 		}
 	}
@@ -1140,6 +1182,7 @@ func suiteSession(args []string) {
 	sessionCrossWait(rep, viol)
 	sessionPartialWrite(rep, viol)
 	sessionUserPayload(rep, viol)
+	sessionAuthPanic(rep, viol)
 	// truncation sweep (C10): one valid request ending in a Message Extension with a Vendor Extension item (the skipped
 	// position), preceded by a complete valid request; every proper prefix of the second one followed by close
 	{
